@@ -37,9 +37,16 @@
              failed.setdefault(bucket, {}).setdefault(exc_str_key, []).append(
                  (str(addr), formula, exc_str))
 
-   What the [except] branch does NOT do: it does not add the address to
-   [verified] and it does not push the cell's precedents — the walk stops at a
-   cell that raises (coq/Refuted/C12_failed_cell_precedents.v).
+   and, since repair bbbc9be of /repo ("validate_calcs keeps walking below a
+   cell it can not evaluate"), at the end of the [except] branch:
+             verified.add(addr)
+             if verify_tree and cell is not None:
+                 for needed_addr in cell.needed_addresses:
+                     if needed_addr not in verified: to_verify.append(needed_addr)
+   ([cell] is None only when _gen_graph failed before the cell was created — a
+   bad address —, which the model does not have: after a failed _gen_graph every
+   new cell is in the cell map, Model/Fail.v.)  A cell that raises is therefore
+   processed like any other: marked verified, its precedents walked.
 
    Bucket and key are functions of the exception's TEXT, not of its class.  The
    text of a pycel evaluation error (excelformula.py eval_func / error_logger,
@@ -230,8 +237,11 @@ Section ValidateFail.
           if raise_exc
           then {| fs_st := s; fs_todo := rest; fs_verified := fs_verified vs; fs_report := r;
                   fs_exc := fs_exc vs; fs_raised := Some (n, ch) |}
-          else {| fs_st := s; fs_todo := rest; fs_verified := fs_verified vs; fs_report := r;
-                  fs_exc := fs_exc vs ++ [(n, ch)]; fs_raised := None |} in
+          else                                                  (* repair bbbc9be: verified.add(addr);
+                                                                   push cell.needed_addresses *)
+            let v' := vadd n (fs_verified vs) in
+            {| fs_st := s; fs_todo := push_deps W n v' rest; fs_verified := v'; fs_report := r;
+               fs_exc := fs_exc vs ++ [(n, ch)]; fs_raised := None |} in
         let finish (s : state) (r : report) :=                  (* lines 657-661 *)
           let v' := vadd n (fs_verified vs) in
           {| fs_st := s; fs_todo := push_deps W n v' rest; fs_verified := v'; fs_report := r;
@@ -272,9 +282,9 @@ Section ValidateFail.
              end
     end.
 
-  (* the fuel of Validate.validate; enough whenever no verified cell is popped
-     again with an unverified precedent (Proofs/C12Fail.v) — a run that ends
-     with a non-empty stack is outside the model *)
+  (* the fuel of Validate.validate: every node is pushed at most once per
+     incoming edge and once per occurrence among the outputs; enough whenever no
+     cell is skipped by the 'No Orig data?' branch (Proofs/C12Fail.v terminates_f) *)
   Definition validate_f_from (s : state) (outs : list nat) : fstate :=
     vloop_f (length outs + edges W + 1)
           {| fs_st := s; fs_todo := rev outs; fs_verified := []; fs_report := [];
